@@ -45,27 +45,27 @@ CHECKS['C05'] = dict(
     note=TB + 'mode semantics as tabulated in DESIGN.md Appendix A.1; the defect found here (far-below-half values rounded to zero under directed modes) is repaired by a fix: commit.')
 
 CHECKS['C16'] = dict(
-    category='proof', design_ref='DESIGN.md section 5 C16, section 3.4 (summaries S, W, contract U)',
-    technique=ABSINT + '; assume/guarantee: the unsigned multiword kernels are replaced by their contract U',
-    text='CLAUSE decided: the signed wrappers i128_shifted_div_mod_floor / i256_div_mod_floor and the wide rounding helpers, for every shift 0..=38 (thorough; quick: boundary shifts), every sign combination and all 8 modes (both via Some(mode) and the thread default): Some((q,r)) paths satisfy q*m + r = a*10^k (a*b) as polynomials with 0 <= r < m - including exact divisions; None paths imply that the quotient does not fit i128; the rounded helpers equal RoundSpec(mode, N/D) and have no panic edge. NOT decided: the schoolbook multiplication and Knuth-D division themselves (contract U is assumed and printed in the evidence).',
-    note=TB + 'CONTRACT U for u128_mul_u128 / u256_idiv_u128 (assumed). Two defects found by this check (exact negative quotients; quot+1 overflow at i128::MAX) are repaired by fix: commits.')
+    category='proof', design_ref="DESIGN.md section 5 C16, section 3.4 (summaries S, W), section 12.9 (U-KERNEL, Knuth-D proof, tactics, fpsa/lp.py)",
+    technique=ABSINT + "; assume/guarantee chain closed inside the check: callers use the summaries of the unsigned multiword kernels, the kernels are proved by interpretation with symbolic 128-bit words; Knuth's algorithm D per normalisation shift with opt-in sound tactics for products of unknowns (multiplier saturation of branch facts, relational quotient bounds, wrapping results tracked modulo 2^128, polyhedral bounds over monomials by an exact self-certifying dual simplex)",
+    text='Decided: (S, W) the signed wrappers i128_shifted_div_mod_floor / i256_div_mod_floor and the wide rounding helpers, for every shift 0..=38 (thorough; quick: boundary shifts), every sign combination and all 8 modes (both via Some(mode) and the thread default): Some((q,r)) paths satisfy q*m + r = a*10^k (a*b) as polynomials with 0 <= r < m - including exact divisions; None paths imply that the quotient does not fit i128; the rounded helpers equal RoundSpec(mode, N/D) and have no panic edge. (U-KERNEL) u128_mul_u128: no overflow edge and hi*2^128 + lo = x*y; u256_idiv_u64 and the dispatch of u256_idiv_u128 for every divisor 1 <= y < 2^128: (qh*2^128 + ql)*y + r = xh*2^128 + xl, 0 <= r < y, no panic edge, *xh < y at both calls of the Knuth-D routine; u256_idiv_u128_special (Knuth D, 4-by-2 words) for every normalisation shift n = 127 - msb(y) (quick: 11 shifts, thorough: all 128, i.e. every divisor 1 <= y < 2^128), every *xh < y and every *xl: both quotient-digit loops unroll to at most two corrections, no overflow / debug_assert edge, *xh = 0 and ql*y + r = xh*2^128 + xl with 0 <= r < y on every path.',
+    note=TB + "the opt-in non-linear tactics of absint and fpsa/lp.py (each LP bound is re-checked as a certificate independent of the pivoting); uniqueness of Euclidean division. Two defects found by this check (exact negative quotients; quot+1 overflow at i128::MAX) are repaired by fix: commits.")
 
-MODULO = ' Rounded results are compared as the term Rnd[thread](N/D) produced by the summaries R (proved in C05) and W (proved in C16 under contract U).'
+MODULO = ' Rounded results are compared as the term Rnd[thread](N/D) produced by the summaries R (proved in C05) and W (proved in C16 down to the unsigned kernels incl. Knuth-D; the proofs this property depends on are re-run as DEP-* obligations).'
 CHECKS['C02'] = dict(
     category='proof', design_ref='DESIGN.md section 5 C02, Appendix A.3',
     technique=ABSINT + '; modular composition through proved summaries; R-FWD',
     text='All 361 scale pairs x {Mul, CheckedMul} plus the integer forms (9 types, both positions): each path is classified by the facts it established (operand zero / equal to one / general) and must return the oracle\'s result: (0,0), the other operand unchanged, the exact product term x*y at scale p+q, or Rnd[thread](x*y/10^(p+q-18)) at scale 18; failures only as overflow of x*y resp. of the rounded product; checked_mul has no panic edge and is None whenever p+q > 18.' + MODULO,
-    note=TB + 'contract U of the unsigned 256-bit kernels; dev-profile semantics (C20 covers profiles).')
+    note=TB + "dev-profile semantics (C20 covers profiles).")
 CHECKS['C03'] = dict(
     category='proof', design_ref='DESIGN.md section 5 C03, Appendix A.4',
     technique=ABSINT + '; modular composition through proved summaries; R-FWD',
     text='Per scale pair (quick: 6x6 boundary pairs and 4 integer types; thorough: all 361 and 9 types) Div / CheckedDiv: zero divisor <=> DivisionByZero / None; 0/y = (0,0); x/1 = x unchanged; otherwise the returned (c,f) satisfies c*10^(18-f) = Rnd[thread](10^(18+q-p) x / y) through the equalities recorded by the normalisation loop, with f = 0 or c mod 10 != 0; the only other failure is the rounded quotient not fitting i128; checked_div has no panic edge.' + MODULO,
-    note=TB + 'contract U of the unsigned 256-bit kernels.')
+    note=TB + 'the summaries\' proofs (C05, C16) are re-run inside this check.')
 CHECKS['C04'] = dict(
     category='other', design_ref='DESIGN.md section 5 C04, Appendix A.3/A.4',
     technique=ABSINT + '; modular composition through proved summaries; R-FWD; shape rule for quantize',
     text='Per (p,q,n) cell (quick: 5^3 boundary cells, thorough: all 19^3) and operand form (Decimal/Decimal, Decimal/int, int/Decimal, int/int): n > 18 is rejected; zero divisor panics; the result is the single term Rnd[thread](exact rational) at scale exactly n (exact product at p+q when n >= p+q; (0,0) for zero operands); failures only as the rounded value exceeding i128. quantize is div_rounded(q,0)*q by shape. Category is "other" rather than proof because one open known finding remains (int/int div_rounded accepts n > 18; the repository\'s own test relies on it).' + MODULO,
-    note=TB + 'contract U; the sticky-bit lemma of DESIGN.md (used to compare the repaired p > n+q overflow branch with the oracle).')
+    note=TB + 'the sticky-bit lemma of DESIGN.md (used to compare the repaired p > n+q overflow branch with the oracle).')
 
 CHECKS['C10'] = dict(
     category='proof', design_ref='DESIGN.md section 5 C10, Appendix A.6',
@@ -77,11 +77,11 @@ CHECKS['C17'] = dict(
     category='other', design_ref='DESIGN.md section 4 (R-FWD, R-SIB), section 5 C17',
     technique='forwarder-shape rule on MIR (resolved callee, argument origins, result flow) for all reference / assign / reversed forms; ' + ABSINT + ' for the integer-operand siblings',
     text='(a) all 657 reference forms of the 12 operator traits, the 5 compound assignments, the 9 reversed equality impls and the 2 string conversions are pure forwarders to their base impl (exactly the same function, panics included; a + b forwarded as b + a is accepted for Add/CheckedAdd only, whose oracle is symmetric). (b) every integer-operand base impl (9 types, both positions) of +,-,*,/,% and checked variants, div_rounded, ==, partial_cmp is compared per scale cell with the oracle of the Decimal x Decimal form applied to (i,0): same value, same scale for + and -, same failure class, with the documented multiplication short-cut exception. Category "other": one open known finding (int/int div_rounded accepts n > 18 while the Decimal form panics).',
-    note=TB + 'summaries R (C05) and W (C16, contract U).')
+    note=TB + 'summaries R (C05) and W (C16).')
 CHECKS['C20'] = dict(
     category='other', design_ref='DESIGN.md section 4 (R-PROFILE, R-CONFIG-DIFF, R-UNSAFE), section 5 C20',
     technique='inventory of profile-dependent check sites on MIR extracted with overflow checks and debug assertions ON + ' + ABSINT + ' deciding for each reached site whether its failure edge is feasible; MIR equality between feature configurations; who-may-call rule for unsafe',
-    text='CLAUSE decided: the operations of C01-C05, C08, C10, C14-C16 (arithmetic, comparison, rounding, integer conversion, unary, wide helpers). Every overflow assert, every call of an inherit-overflow-checks core function (<i128 as Add>::add, abs, pow, ...) and every debug_assert reached by the ~4 500 (quick) / ~24 000 (thorough) cells of those properties has an infeasible failure edge in every cell, hence the release build - which omits the check - computes the same result; a feasible edge would be reported as "panics in dev, wraps in release". Function bodies are identical MIR with and without feature packed; unsafe operations are confined to the audited parser helpers. NOT decided: the 141 sites in float conversion, parser, formatting, gcd and the unsigned 256-bit kernels (listed as assumptions in the evidence).',
+    text='CLAUSE decided: the operations of C01-C06, C08-C10, C14-C16 (arithmetic, comparison, rounding, integer conversion, unary, wide helpers and unsigned kernels incl. Knuth-D, gcd / ratio / hash, parsing). Every overflow assert, every call of an inherit-overflow-checks core function (<i128 as Add>::add, abs, pow, ...) and every debug_assert reached by the ~4 500 (quick) / ~24 000 (thorough) cells of those properties has an infeasible failure edge in every cell, hence the release build - which omits the check - computes the same result; a feasible edge would be reported as "panics in dev, wraps in release". Function bodies are identical MIR with and without feature packed; unsafe operations are confined to the audited parser helpers. NOT decided: the 68 sites in float conversion, formatting and unused doc(hidden) helpers (listed as assumptions in the evidence).',
     note='Trusted: rustc (absent UB the optimisation level does not change results); ' + TB + 'The 98 silent-wrap sites found by this check are repaired by a fix: commit.')
 
 CHECKS['C09'] = dict(
